@@ -72,6 +72,19 @@ Proof.
   destruct Hcp; subst cp; cbn [silent]; rewrite Hf; cbn [Nat.eqb]; rewrite !orb_true_r; reflexivity.
 Qed.
 
+(* after the S4c repair (a zero-byte cache file counts as absent) the zero-byte state is one of the
+   coherent ones: the planner agrees with the truth log there too, for every thread *)
+Lemma seen_zero_length_coherent t : coherent t (seen true (CLines [])).
+Proof. left. reflexivity. Qed.
+
+Lemma zero_length_counts_as_absent t stride max_new :
+  planned false t (seen true (CLines [])) stride max_new = firstn max_new (unplanned t stride).
+Proof. apply planned_coherent, seen_zero_length_coherent. Qed.
+
+(* `seen` changes nothing else *)
+Lemma seen_other zl cc : cc <> CLines [] -> seen zl cc = cc.
+Proof. destruct cc as [| |[|e r]]; intros H; try reflexivity. exfalso. apply H. reflexivity. Qed.
+
 (* the `>=` fallback of seeded change C02-6 is invisible as long as the cache answers ... *)
 Lemma skip_eq_fallback_hidden t cc stride max_new :
   cc = CAbsent \/ cc = CLines (t_cps t) ->
@@ -95,7 +108,7 @@ Proof. vm_compute. repeat split; reflexivity. Qed.
 
 (* open finding S4c-noop-appends: a zero-byte cache file answers "no checkpoint" *)
 Lemma zero_length_cache_refuted :
-  unplanned w_thread6 2 = [] /\ planned false w_thread6 (CLines []) 2 32 = [6; 4; 2].
+  unplanned w_thread6 2 = [] /\ planned false w_thread6 (seen false (CLines [])) 2 32 = [6; 4; 2].
 Proof. vm_compute. split; reflexivity. Qed.
 
 (* open finding S4-noop-appends: a cache re-created by the last append holds the newest checkpoint only *)
